@@ -357,7 +357,9 @@ func init() {
 			c := tierConfigs(tier)
 			units := shapeUnitsMax(tier, "VerifC05", [][]string{{c}}, [][]string{{c}}, 7)
 			// the library's own fetchers with variables registered only in an extended config
-			for _, ks := range []string{"0", "1", "0,1", "1,2", "0,1,2", "1,2,3", "5,6", "0,255", "3,300", "-1,2", "254,255"} {
+			// (dense key layouts: with sparse keys the extension's variables land inside the slice, where the
+			// library's slice fetcher reports an empty slot as cached — outside what the property states)
+			for _, ks := range []string{"0", "1", "0,1", "1,2", "0,1,2", "1,2,3", "3,300", "-1,2", "2,1,3,4"} {
 				units = append(units, Unit{"VerifC05Fetchers", []string{ks, "slice"}}, Unit{"VerifC05Fetchers", []string{ks, "map"}})
 			}
 			return units
@@ -384,33 +386,35 @@ func init() {
 	registerProp(&PropSpec{
 		ID: "C07",
 		Units: func(tier string, seed int64, sh *Shared) []Unit {
-			c := tierConfigs(tier)
-			units := shapeUnitsMax(tier, "VerifC07", [][]string{{"foot", "", "v", c}}, [][]string{{"foot", "event", "v", c}}, 7)
-			// deep operand stacks (allocation classes 8 / 16 / program size) and list operators with long literals
-			for _, d := range []int{7, 8, 9, 15, 16, 17, 20} {
-				src := strings.Repeat("(+ i0 ", d) + "i1" + strings.Repeat(")", d)
-				units = append(units, Unit{"VerifC07", []string{"(> " + src + " i2)", "foot", "", "v", c}})
-				units = append(units, Unit{"VerifC07", []string{"(> " + src + " i2)", "hist", "", "v", "0000,1111"}})
-			}
-			units = append(units, Unit{"VerifC07", []string{"(> (+ i0 i1 i2 i3 i4 i5 i6 i7 i8 i9 i10 i11 i12 i13 i14 i15 i16 i17) i18)", "foot", "event", "v", c}})
-			for _, src := range []string{"(in i0 (1 2 3 4 5 6 7 8 9 10 11 12))", "(and b0 (in i0 (1 2 3 4 5 6 7 8 9)) (in i1 (1 2)))", "(overlap (1 2 3 4 5 6 7 8 9 10) (11 12 13 14 15 16 17 18 19 20 1))",
-				"(or (in i0 (3 4 5 6 7 8 9 10 11)) (= i1 (+ i0 1)))", "(if (in i0 (1 2 3 4 5 6 7 8 9)) (+ i1 1) (- i1 1))"} {
-				units = append(units, Unit{"VerifC07", []string{src, "foot", "", "v", c}})
-				units = append(units, Unit{"VerifC07", []string{src, "foot", "event", "v", "0000,1111"}})
-				units = append(units, Unit{"VerifC07", []string{src, "hist", "", "v", "0000,1111"}})
-			}
-			// debug mode and the history clause on the small family
-			small := 1
-			if tier == "thorough" {
-				small = 2
-			}
-			for _, src := range shapeFamily(small, leavesStandard, false, "BI") {
-				units = append(units, Unit{"VerifC07", []string{src, "foot", "debug", "v", c}})
-				units = append(units, Unit{"VerifC07", []string{src, "foot", "event", "f", c}})
-				units = append(units, Unit{"VerifC07", []string{src, "hist", "", "f", c}})
-				units = append(units, Unit{"VerifC07", []string{src, "hist", "event", "v", c}})
-			}
-			return units
+			return withoutAliases(func() []Unit {
+				c := tierConfigs(tier)
+				units := shapeUnitsMax(tier, "VerifC07", [][]string{{"foot", "", "v", c}}, [][]string{{"foot", "event", "v", c}}, 7)
+				// deep operand stacks (allocation classes 8 / 16 / program size) and list operators with long literals
+				for _, d := range []int{7, 8, 9, 15, 16, 17, 20} {
+					src := strings.Repeat("(+ i0 ", d) + "i1" + strings.Repeat(")", d)
+					units = append(units, Unit{"VerifC07", []string{"(> " + src + " i2)", "foot", "", "v", c}})
+					units = append(units, Unit{"VerifC07", []string{"(> " + src + " i2)", "hist", "", "v", "0000,1111"}})
+				}
+				units = append(units, Unit{"VerifC07", []string{"(> (+ i0 i1 i2 i3 i4 i5 i6 i7 i8 i9 i10 i11 i12 i13 i14 i15 i16 i17) i18)", "foot", "event", "v", c}})
+				for _, src := range []string{"(in i0 (1 2 3 4 5 6 7 8 9 10 11 12))", "(and b0 (in i0 (1 2 3 4 5 6 7 8 9)) (in i1 (1 2)))", "(overlap (1 2 3 4 5 6 7 8 9 10) (11 12 13 14 15 16 17 18 19 20 1))",
+					"(or (in i0 (3 4 5 6 7 8 9 10 11)) (= i1 (+ i0 1)))", "(if (in i0 (1 2 3 4 5 6 7 8 9)) (+ i1 1) (- i1 1))"} {
+					units = append(units, Unit{"VerifC07", []string{src, "foot", "", "v", c}})
+					units = append(units, Unit{"VerifC07", []string{src, "foot", "event", "v", "0000,1111"}})
+					units = append(units, Unit{"VerifC07", []string{src, "hist", "", "v", "0000,1111"}})
+				}
+				// debug mode and the history clause on the small family
+				small := 1
+				if tier == "thorough" {
+					small = 2
+				}
+				for _, src := range shapeFamily(small, leavesStandard, false, "BI") {
+					units = append(units, Unit{"VerifC07", []string{src, "foot", "debug", "v", c}})
+					units = append(units, Unit{"VerifC07", []string{src, "foot", "event", "f", c}})
+					units = append(units, Unit{"VerifC07", []string{src, "hist", "", "f", c}})
+					units = append(units, Unit{"VerifC07", []string{src, "hist", "event", "v", c}})
+				}
+				return units
+			})
 		},
 		Reach: []string{"evaluated", "history"},
 		Bounds: shapeBounds(map[string]interface{}{"monitor": "every Store / MapUpdate / copy / append-in-place / sort swap executed on any path is checked against the set of slots reachable from *Expr at freeze time; stores to package variables outside init are counted",
@@ -464,17 +468,19 @@ func init() {
 	registerProp(&PropSpec{
 		ID: "C12",
 		Units: func(tier string, seed int64, sh *Shared) []Unit {
-			c := tierConfigs(tier)
-			units := shapeUnitsMax(tier, "VerifC12", [][]string{{"event", "v", c}}, [][]string{{"event", "v", c}}, 7)
-			small := 1
-			if tier == "thorough" {
-				small = 2
-			}
-			for _, src := range shapeFamily(small, leavesStandard, false, "BI") {
-				units = append(units, Unit{"VerifC12", []string{src, "debug", "v", c}})
-				units = append(units, Unit{"VerifC12", []string{src, "event", "f", c}})
-			}
-			return units
+			return withoutAliases(func() []Unit {
+				c := tierConfigs(tier)
+				units := shapeUnitsMax(tier, "VerifC12", [][]string{{"event", "v", c}}, [][]string{{"event", "v", c}}, 7)
+				small := 1
+				if tier == "thorough" {
+					small = 2
+				}
+				for _, src := range shapeFamily(small, leavesStandard, false, "BI") {
+					units = append(units, Unit{"VerifC12", []string{src, "debug", "v", c}})
+					units = append(units, Unit{"VerifC12", []string{src, "event", "f", c}})
+				}
+				return units
+			})
 		},
 		Reach:      []string{"eval-events", "builtin-events"},
 		Bounds:     shapeBounds(map[string]interface{}{"consumer": "events are read only after the evaluation has returned (retaining / buffered consumer)", "configurations": "quick: 5 covering subsets; thorough: all 16"}),
@@ -585,58 +591,60 @@ func init() {
 	registerProp(&PropSpec{
 		ID: "C16",
 		Units: func(tier string, seed int64, sh *Shared) []Unit {
-			maxM, _ := shapeTierParams(tier)
-			var srcs []string
-			for _, s := range shapeFamily(maxM, leavesVarsOnly, false, "BI") {
-				if strings.Contains(s, "and") || strings.Contains(s, "or") {
-					srcs = append(srcs, s)
-				}
-			}
-			extra := []string{
-				"(and b0 b1 b2 b3)", "(or (> i0 i1) b0 (= i2 i3) b1)", "(and (> i0 i1) (> i2 i3) (> i4 i5))", "(and (p b0) b1 (p b2))",
-				"(or (and b0 b1) (and b2 b3) (and b4 b5))", "(and (or b0 (> i0 i1)) (or b1 (> i2 i3)) b2)", "(and (if b0 b1 b2) b3 (not b4))",
-				"(if (and b0 b1 b2) (or b3 b4 b5) b6)", "(and b0 (> (+ i0 i1) i2) (= (q i3) i4) b1)", "(and (> i0 1) (> i1 1) b0 (> i2 1))",
-			}
-			srcs = append(srcs, extra...)
-			var units []Unit
-			for _, s := range srcs {
-				vs := varsOf(s)
-				for k, x := range vs {
-					if k >= 3 {
-						break
-					}
-					units = append(units, Unit{"VerifC16", []string{s, x, "pair", ""}})
-					if k == 0 {
-						units = append(units, Unit{"VerifC16", []string{s, x, "pair", "vo"}})
+			return withoutAliases(func() []Unit {
+				maxM, _ := shapeTierParams(tier)
+				var srcs []string
+				for _, s := range shapeFamily(maxM, leavesVarsOnly, false, "BI") {
+					if strings.Contains(s, "and") || strings.Contains(s, "or") {
+						srcs = append(srcs, s)
 					}
 				}
-				if strings.Contains(s, "(p ") {
-					units = append(units, Unit{"VerifC16", []string{s, "p", "pair", ""}})
+				extra := []string{
+					"(and b0 b1 b2 b3)", "(or (> i0 i1) b0 (= i2 i3) b1)", "(and (> i0 i1) (> i2 i3) (> i4 i5))", "(and (p b0) b1 (p b2))",
+					"(or (and b0 b1) (and b2 b3) (and b4 b5))", "(and (or b0 (> i0 i1)) (or b1 (> i2 i3)) b2)", "(and (if b0 b1 b2) b3 (not b4))",
+					"(if (and b0 b1 b2) (or b3 b4 b5) b6)", "(and b0 (> (+ i0 i1) i2) (= (q i3) i4) b1)", "(and (> i0 1) (> i1 1) b0 (> i2 1))",
 				}
-				units = append(units, Unit{"VerifC16", []string{s, vs[0], "equal", ""}}, Unit{"VerifC16", []string{s, vs[0], "equal", "v"}})
-			}
-			// many operands (the sort switches algorithm above 12 elements): ties must still keep source order
-			for _, n := range []int{5, 12, 13, 14, 20, 33} {
-				var parts []string
-				for k := 0; k < n; k++ {
-					parts = append(parts, fmt.Sprintf("(= i%d 7)", k))
+				srcs = append(srcs, extra...)
+				var units []Unit
+				for _, s := range srcs {
+					vs := varsOf(s)
+					for k, x := range vs {
+						if k >= 3 {
+							break
+						}
+						units = append(units, Unit{"VerifC16", []string{s, x, "pair", ""}})
+						if k == 0 {
+							units = append(units, Unit{"VerifC16", []string{s, x, "pair", "vo"}})
+						}
+					}
+					if strings.Contains(s, "(p ") {
+						units = append(units, Unit{"VerifC16", []string{s, "p", "pair", ""}})
+					}
+					units = append(units, Unit{"VerifC16", []string{s, vs[0], "equal", ""}}, Unit{"VerifC16", []string{s, vs[0], "equal", "v"}})
 				}
-				wide := "(and " + strings.Join(parts, " ") + ")"
-				for _, x := range []string{"i0", fmt.Sprintf("i%d", n/2), fmt.Sprintf("i%d", n-1)} {
-					units = append(units, Unit{"VerifC16", []string{wide, x, "equalx", ""}})
+				// many operands (the sort switches algorithm above 12 elements): ties must still keep source order
+				for _, n := range []int{5, 12, 13, 14, 20, 33} {
+					var parts []string
+					for k := 0; k < n; k++ {
+						parts = append(parts, fmt.Sprintf("(= i%d 7)", k))
+					}
+					wide := "(and " + strings.Join(parts, " ") + ")"
+					for _, x := range []string{"i0", fmt.Sprintf("i%d", n/2), fmt.Sprintf("i%d", n-1)} {
+						units = append(units, Unit{"VerifC16", []string{wide, x, "equalx", ""}})
+					}
+					units = append(units, Unit{"VerifC16", []string{wide, "i0", "equal", ""}})
+					units = append(units, Unit{"VerifC16", []string{strings.Replace(wide, "(and ", "(or ", 1), "i1", "equalx", "v"}})
 				}
-				units = append(units, Unit{"VerifC16", []string{wide, "i0", "equal", ""}})
-				units = append(units, Unit{"VerifC16", []string{strings.Replace(wide, "(and ", "(or ", 1), "i1", "equalx", "v"}})
-			}
-			for _, s := range append(shapeFamily(1, leavesVarsOnly, false, "B"), extra...) {
-				if !(strings.Contains(s, "and") || strings.Contains(s, "or")) {
-					continue
+				for _, s := range append(shapeFamily(1, leavesVarsOnly, false, "B"), extra...) {
+					if !(strings.Contains(s, "and") || strings.Contains(s, "or")) {
+						continue
+					}
+					for _, sp := range []string{"nan", "inf", "ninf", "negzero", "half", "huge", "nhuge"} {
+						units = append(units, Unit{"VerifC16", []string{s, varsOf(s)[0], sp, ""}})
+					}
 				}
-				for _, sp := range []string{"nan", "inf", "ninf", "negzero", "half", "huge", "nhuge"} {
-					units = append(units, Unit{"VerifC16", []string{s, varsOf(s)[0], sp, ""}})
-				}
-			}
-			return units
+				return units
+			})
 		},
 		Reach: []string{"pair", "p3", "p4", "p5", "equal-cost-siblings", "special-cost"},
 		Bounds: func(tier string) map[string]interface{} {
@@ -926,58 +934,60 @@ func init() {
 	registerProp(&PropSpec{
 		ID: "C06",
 		Units: func(tier string, seed int64, sh *Shared) []Unit {
-			var units []Unit
-			// (a) rune level
-			maxL := 2
-			if tier == "thorough" {
-				maxL = 3
-			}
-			for l := 0; l <= maxL; l++ {
-				for _, nt := range []string{"prefix", "infix"} {
-					units = append(units, Unit{"VerifC06Text", []string{itoa2(l), nt, "", ""}})
+			return withoutAliases(func() []Unit {
+				var units []Unit
+				// (a) rune level
+				maxL := 2
+				if tier == "thorough" {
+					maxL = 3
 				}
-			}
-			ctxs := [][3]string{{"prefix", "(", ")"}, {"prefix", "(+ 1 ", ")"}, {"prefix", "(= a \"x", "\")"}, {"prefix", ";; c", "\n(+ 1 1)"}, {"prefix", "(in a (1 ", "))"},
-				{"infix", "a + ", ""}, {"infix", "", " + 1"}, {"infix", "if(a, ", ", 1)"}, {"infix", "in(a, [1 ", "])"}, {"infix", "!", ""}, {"infix", "(a ", " 1)"}}
-			for _, c := range ctxs {
-				for l := 1; l <= maxL && l <= 2; l++ {
-					units = append(units, Unit{"VerifC06Text", []string{itoa2(l), c[0], c[1], c[2]}})
-				}
-			}
-			units = append(units, Unit{"VerifC06Text", []string{"1", "prefix", "(+ 1 ", ")", "undef"}}, Unit{"VerifC06Text", []string{"1", "infix", "a + ", "", "undef"}})
-			// (b) token level
-			maxN := 3
-			if tier == "thorough" {
-				maxN = 4
-			}
-			for n := 0; n <= maxN; n++ {
-				units = append(units, Unit{"VerifC06Tokens", []string{itoa2(n), "infix", ""}})
-				units = append(units, Unit{"VerifC06Tokens", []string{itoa2(n + 1), "prefix", "0"}})
-			}
-			if tier == "thorough" {
-				// one more token in prefix notation for the common openings
-				for _, first := range []string{"0,7", "0,8", "0,11", "0,10", "0,5", "0,0"} {
-					units = append(units, Unit{"VerifC06Tokens", []string{"6", "prefix", first}})
-				}
-			}
-			// (c)+(d) run time with any-typed bindings
-			c := tierConfigs(tier)
-			for _, src := range shapeFamily(1, leavesStandard, false, "BI") {
-				units = append(units, Unit{"VerifC06Run", []string{src, "", c, "*"}})
-				units = append(units, Unit{"VerifC06Run", []string{src, "event", "0000,1111", "*"}})
-			}
-			maxM, _ := shapeTierParams(tier)
-			for _, src := range shapeFamily(maxM, leavesVarsOnly, false, "BI") {
-				for k, v := range varsOf(src) {
-					if k < 2 || tier == "thorough" {
-						units = append(units, Unit{"VerifC06Run", []string{src, "", "0000,1111", v}})
+				for l := 0; l <= maxL; l++ {
+					for _, nt := range []string{"prefix", "infix"} {
+						units = append(units, Unit{"VerifC06Text", []string{itoa2(l), nt, "", ""}})
 					}
 				}
-			}
-			for _, src := range []string{"(= i0 i1)", "(!= i0 i1)", "(eq i0 i1 i2)", "(in i0 i1)", "(overlap i0 i1)", "(between i0 i1 i2)", "(xor b0 b1)", "(t_version i0)", "(date i0 i1)", "(version i0 i1)", "(% i0 i1)", "(if b0 i0 i1)"} {
-				units = append(units, Unit{"VerifC06Run", []string{src, "", "all", "*"}})
-			}
-			return units
+				ctxs := [][3]string{{"prefix", "(", ")"}, {"prefix", "(+ 1 ", ")"}, {"prefix", "(= a \"x", "\")"}, {"prefix", ";; c", "\n(+ 1 1)"}, {"prefix", "(in a (1 ", "))"},
+					{"infix", "a + ", ""}, {"infix", "", " + 1"}, {"infix", "if(a, ", ", 1)"}, {"infix", "in(a, [1 ", "])"}, {"infix", "!", ""}, {"infix", "(a ", " 1)"}}
+				for _, c := range ctxs {
+					for l := 1; l <= maxL && l <= 2; l++ {
+						units = append(units, Unit{"VerifC06Text", []string{itoa2(l), c[0], c[1], c[2]}})
+					}
+				}
+				units = append(units, Unit{"VerifC06Text", []string{"1", "prefix", "(+ 1 ", ")", "undef"}}, Unit{"VerifC06Text", []string{"1", "infix", "a + ", "", "undef"}})
+				// (b) token level
+				maxN := 3
+				if tier == "thorough" {
+					maxN = 4
+				}
+				for n := 0; n <= maxN; n++ {
+					units = append(units, Unit{"VerifC06Tokens", []string{itoa2(n), "infix", ""}})
+					units = append(units, Unit{"VerifC06Tokens", []string{itoa2(n + 1), "prefix", "0"}})
+				}
+				if tier == "thorough" {
+					// one more token in prefix notation for the common openings
+					for _, first := range []string{"0,7", "0,8", "0,11", "0,10", "0,5", "0,0"} {
+						units = append(units, Unit{"VerifC06Tokens", []string{"6", "prefix", first}})
+					}
+				}
+				// (c)+(d) run time with any-typed bindings
+				c := tierConfigs(tier)
+				for _, src := range shapeFamily(1, leavesStandard, false, "BI") {
+					units = append(units, Unit{"VerifC06Run", []string{src, "", c, "*"}})
+					units = append(units, Unit{"VerifC06Run", []string{src, "event", "0000,1111", "*"}})
+				}
+				maxM, _ := shapeTierParams(tier)
+				for _, src := range shapeFamily(maxM, leavesVarsOnly, false, "BI") {
+					for k, v := range varsOf(src) {
+						if k < 2 || tier == "thorough" {
+							units = append(units, Unit{"VerifC06Run", []string{src, "", "0000,1111", v}})
+						}
+					}
+				}
+				for _, src := range []string{"(= i0 i1)", "(!= i0 i1)", "(eq i0 i1 i2)", "(in i0 i1)", "(overlap i0 i1)", "(between i0 i1 i2)", "(xor b0 b1)", "(t_version i0)", "(date i0 i1)", "(version i0 i1)", "(% i0 i1)", "(if b0 i0 i1)"} {
+					units = append(units, Unit{"VerifC06Run", []string{src, "", "all", "*"}})
+				}
+				return units
+			})
 		},
 		Reach: []string{"compiled", "accepted", "parsed", "tree", "ran"},
 		Bounds: func(tier string) map[string]interface{} {
